@@ -158,7 +158,7 @@ func gRequired(p *gProp, params govv1.Params, custom map[string]fxgovtypes.Custo
 // ---------------------------------------------------------------------------------------
 // generator of governance / staking traffic (shared by C14, C15, C16)
 
-var gTypedURLs = []string{gSpendURL, "/fx.gravity.crosschain.v1.MsgUpdateParams", "/fx.erc20.v1.MsgUpdateParams", "/fx.gov.v1.MsgUpdateCustomParams", "/fx.gov.v1.MsgUpdateStore", ""}
+var gTypedURLs = []string{gSpendURL, "/fx.gravity.crosschain.v1.MsgUpdateParams", "/fx.erc20.v1.MsgUpdateParams", "/fx.gov.v1.MsgUpdateCustomParams", "/fx.gov.v1.MsgUpdateStore", "/cosmos.gov.v1.MsgExecLegacyContent", ""}
 
 func gActors(r *Run) []string {
 	st := gst(r)
@@ -196,7 +196,7 @@ func genGovTraffic(r *Run, kind string) (Step, bool) {
 	case "submit", "custom":
 		st.Uniq++
 		u := st.Uniq
-		typ := []string{"text", "ccparams", "erc20params", "spend", "spend", "multispend", "multicc", "mixed", "custom", "store"}[rng.IntN(10)]
+		typ := []string{"text", "ccparams", "erc20params", "spend", "spend", "multispend", "multicc", "mixed", "custom", "store", "legacytext"}[rng.IntN(11)]
 		if kind == "custom" {
 			typ = "custom"
 		}
@@ -222,6 +222,8 @@ func genGovTraffic(r *Run, kind string) (Step, bool) {
 			r.Probe("c07-verify-invariant-proposal")
 		case "text":
 			spec = "text"
+		case "legacytext":
+			spec = gitem("legacytext", "title", fmt.Sprintf("legacy-%d", u))
 		case "ccparams":
 			spec = gitem("ccparams", "chain", "eth", "window", 1000+u)
 		case "erc20params":
